@@ -55,6 +55,9 @@ CHECKS = {
  "C16": ("exploration", "deterministic simulation with the arena in strict mode (guards, spare capacity, poison from the plan), second execution under another layout with the same entropy, snapshots of earlier results re-checked after every later call",
          "Arguments, spare capacity and guards unchanged after every call; results independent of spare contents; requests/encodings/tokens handed out earlier intact across duplicate finalize/evaluate/decoder reuse.",
          TRUST, "DESIGN.md §4 C16"),
+ "C17": ("exploration", "deterministic simulation of caller goroutines under a seeded one-at-a-time scheduler (raw-pipe hand-off invisible to the race detector, go/ast-inserted yields in scratch copies of /repo and circl, PCT-style preemption lists) built with -race; race reports + sequential-equivalence oracle",
+         "Seeded search over schedules of 2-6 tasks calling one shared issuer/key object, cold and used-before; every race report whose owner is repository or dependency code is a violation; every call's bytes must equal a sequential re-execution under the same entropy. Detection of a given race under a given schedule is ~95% (bounded detector history); absence is sampling.",
+         TRUST + " Trusts the Go race detector; yields inside dependencies only in circl oprf/dleq/group/blindrsa/expander.", "DESIGN.md §4 C17"),
  "C18": ("exploration", "deterministic simulation of the key directory with rotation while requests are in flight; wire observer recomputes ids from published bytes; own DER assembler for the RSASSA-PSS SPKI; synthetic keys of all sizes",
          "Published PSS SPKI byte-identical to an independently assembled DER (and to the Rust implementation's pkS); both forms decode back; key-id byte / name-key id on every request = SHA-256 of published bytes. Leverage is low.",
          TRUST, "DESIGN.md §4 C18"),
